@@ -151,7 +151,7 @@ func runHistory(id int, b *Behaviour, algo, scale, via string, dir string) hk.Re
 	var fs filesystem.FS
 	var err error
 	switch via {
-	case "reader":
+	case "reader", "reader-plain":
 		hasher, err = hashing.NewHashingAlgorithm(algo)
 	case "file-mem":
 		fhasher, err = filesystem.NewFileHash(algo)
@@ -186,6 +186,13 @@ func runHistory(id int, b *Behaviour, algo, scale, via string, dir string) hk.Re
 		switch via {
 		case "reader":
 			digest, cerr = hasher.CalculateWithContext(ctx, sr)
+		case "reader-plain":
+			// the entry point without a context for the calculations that are not cancelled
+			if how == "cancel" {
+				digest, cerr = hasher.CalculateWithContext(ctx, sr)
+			} else {
+				digest, cerr = hasher.Calculate(sr)
+			}
 		default:
 			p := filepath.Join(dir, fmt.Sprintf("f%d", i))
 			if werr := fs.WriteFile(p, append([]byte{'x'}, all...), 0o600); werr != nil { // never empty
@@ -272,6 +279,9 @@ func replay(a *hk.Args) error {
 				}
 				// every behaviour on every algorithm with the tiny scale; one further random scale; files on a sample
 				w.Write(runHistory(i, &bs[i], algo, "tiny", "reader", osdir))
+				if k == i%len(algos) {
+					w.Write(runHistory(i, &bs[i], algo, "tiny", "reader-plain", osdir))
+				}
 				sc := scaleNames[1+rng.Intn(3)]
 				if a.Tier == "thorough" || rng.Intn(4) == 0 {
 					w.Write(runHistory(i, &bs[i], algo, sc, "reader", osdir))
